@@ -258,6 +258,7 @@ fn cmd_run(property: &str, scenarios: &[Scenario], args: &[String]) -> i32 {
     let mut max_single = 0usize;
     let mut peak_run = 0u64;
     let mut tape_draws = 0u64;
+    let mut shapes_capped = false;
 
     let mut i = 0u64;
     while i < count {
@@ -286,7 +287,12 @@ fn cmd_run(property: &str, scenarios: &[Scenario], args: &[String]) -> i32 {
         }
         if out.rec.nontrivial {
             nontrivial_runs += 1;
-            shapes.insert(out.rec.shape_hash);
+            // bounded: beyond this many distinct shapes per worker only the count of runs is kept
+            if shapes.len() < 250_000 {
+                shapes.insert(out.rec.shape_hash);
+            } else {
+                shapes_capped = true;
+            }
         }
         if rechecked {
             let vh = out.violation.as_ref().map(|v| format!("{}|{}", v.class, v.key)).unwrap_or_default();
@@ -349,6 +355,7 @@ fn cmd_run(property: &str, scenarios: &[Scenario], args: &[String]) -> i32 {
         "evaluations": evaluations,
         "nontrivial_runs": nontrivial_runs,
         "shape_hashes": shapes.iter().map(|h| format!("{h:016x}")).collect::<Vec<_>>(),
+        "shapes_capped": shapes_capped,
         "counters": counters,
         "violations": violations,
         "run_hashes": run_hashes,
